@@ -669,6 +669,61 @@ class StructRun(object):
         self.falsy_combinations = len(combos)
         self.falsy_per_class = per_class
 
+    def alias_phase(self):
+        """decoded values are independent of each other: decoding a second value of a class (with a fresh instance)
+        must not change a value decoded before - two values that share state through a class-level default, a cache or
+        a factory show up as a different re-encoding of the first one.  Works from the BYTE strings the library was
+        grown from (fixture vectors, real traffic), not from the decoded examples, which such sharing would already
+        have made equal."""
+        n = pairs = 0
+        for key in sorted(self.lib.classes):
+            cls, own = self.lib.classes[key]
+            if IC.factory_for_class(cls) is None:
+                continue
+            name = cls.__name__
+            byv = {}
+            for (v, item) in self.lib.sources.get(key, []):
+                lst = byv.setdefault(v, [])
+                if item not in lst and len(lst) < 4:
+                    lst.append(item)
+            for v, items in sorted(byv.items(), key=lambda kv: str(kv[0])):
+                if len(items) < 2:
+                    continue
+                first = []
+                for b in items:
+                    try:
+                        o, left = IC.dec(cls, b, v)
+                        first.append((b, o, IC.enc(o, v)))
+                    except Exception:
+                        pass
+                if len(first) < 2 or len(set(r for _, _, r in first)) < 2:
+                    continue
+                pairs += 1
+                for b in items:                       # decode them all once more, with fresh instances
+                    try:
+                        IC.dec(cls, b, v)
+                    except Exception:
+                        pass
+                for (b, o, r) in first:
+                    n += 1
+                    try:
+                        r2 = IC.enc(o, v)
+                    except Exception as e:
+                        r2 = "raised %s" % type(e).__name__
+                    if r2 != r:
+                        self.findings.append(Finding(
+                            "c01:decoded-values-share-state:%s" % name,
+                            "%s under KMIP %s: the value decoded from %s re-encoded as %s; after other %s values were "
+                            "decoded (each with a fresh instance) the SAME object re-encodes as %s" % (
+                                name, IC.vname(v), b.hex()[:120], r.hex()[:120], name,
+                                r2.hex()[:120] if isinstance(r2, bytes) else r2),
+                            {"kind": "alias", "class": key, "version": IC.vname(v),
+                             "encodings": [x.hex() for x in items]}))
+                        break
+        self.stats["alias_checks"] = n
+        self.stats["alias_class_versions"] = pairs
+        self.evaluations += n
+
     def minimal_kwargs(self, cls, kw, k):
         """the other arguments reduced to what the class needs to be written at all (None when nothing works)"""
         base = {kk: (vv if kk == "tag" else None) for kk, vv in kw.items()}
@@ -731,6 +786,7 @@ class StructRun(object):
             pc["stats"] = st
             for k, n in st.items():
                 self.stats[k] = self.stats.get(k, 0) + n
+        self.alias_phase()
         import codec_fields
         codec_fields.discover_phase(self)
         codec_fields.nested_phase(self)
